@@ -596,6 +596,8 @@ Proof.
         -- intros Hl Hc. apply transient_err in E3. destruct E3 as [_ E3]. unfold NREGS in *. lia.
       * intros Hl Hc. apply IH; [congruence|lia].
   - (* SFlush *) intros _ st. cbn [lower_stmt]. oor_trivial.
+  - intros a b n o m Hw. discriminate.
+  - intros q ip a b n Hw. discriminate.
   - (* BNil *) intros _ st. cbn [lower_block]. apply good_refl.
   - (* BCons *) intros s IHs b IHb Hp st. cbn [bplain] in Hp. apply andb_prop in Hp. destruct Hp as [Hp1 Hp2].
     specialize (IHb Hp2). cbn [lower_block bneed].
